@@ -31,7 +31,7 @@ def stats_vcs() -> List[core.VC]:
     vcs: List[core.VC] = []
     for with_mem in (True, False):
         name = f"{PROP}.launch_stats.memory_{with_mem}"
-        ex = pyvc.Exec(consts=extract.module_constants(CK), name=name)
+        ex = pyvc.Exec(consts={**extract.module_constants("hta.common.trace_filter"), **extract.module_constants(CK)}, name=name)
         fv.install(ex)
         fv.install_symtab(ex)
         st = fv.SymTab("st")
